@@ -43,7 +43,10 @@ Record opts := mkOpts {
   o_limit : Z;        (* AccumulatedCopySizeLimit *)
   o_allow : bool;     (* AllowMissingPathOnRemove *)
   o_ensure : bool;    (* EnsurePathExistsOnAdd *)
-  o_esc : bool        (* EscapeHTML *)
+  o_esc : bool;       (* EscapeHTML *)
+  o_nullsz : option Z (* None: a copied null is counted as the code counts it (0 for a nil node, 4
+                         for a stored raw null); Some z: every copied null counts z bytes.  C12 lets
+                         a copied null count 0 or 4; the correspondence evaluates both. *)
 }.
 
 (* ---- decoding a raw message one level (json.UnmarshalValid into map / slice) ---- *)
@@ -474,19 +477,19 @@ Fixpoint ensure (o : opts) (parts : list bytes) (c : con) {struct parts} : optio
           match next_idx, bseq nextp [x2d] with
           | None, false =>
               (* create an object *)
-              let c2 := ignore_err c1 (con_add o c1 key (NRaw (TObj []))) in
+              (* doc.add(key, newNode) then newNode.intoDoc: the node sits where add put it (or
+                 nowhere, when add failed) and is filled in place: same as adding the filled node *)
               let (e, ch') := ensure o rest (KDoc NNil [] []) in
-              (e, con_put o c2 key (node_of_con ch'))
+              (e, ignore_err c1 (con_add o c1 key (node_of_con ch')))
           | _, _ =>
               let ai := match next_idx with Some i => i | None => 0%Z end in
               if (ai <? 0)%Z && negb (o_neg o) then (Some EInvalidIndex, c1)
               else if (ai <? -1)%Z then (Some EInvalidIndex, c1)
               else
                 let ai := if (ai <? 0)%Z then 0%Z else ai in
-                let c2 := ignore_err c1 (con_add o c1 key (NRaw (TArr []))) in
                 let ch := pad_nulls o (KAry NNil []) 0 (Z.to_nat ai) in
                 let (e, ch') := ensure o rest ch in
-                (e, con_put o c2 key (node_of_con ch'))
+                (e, ignore_err c1 (con_add o c1 key (node_of_con ch')))
           end
       | Some n =>
           match n with
@@ -528,10 +531,14 @@ Definition escape_tree (esc : bool) : tjson -> tjson :=
 (* deepCopy: marshal with the escape setting, wrap as a fresh raw node; size = bytes written *)
 Definition deep_copy (o : opts) (n : node) : node * Z :=
   match n with
-  | NNil => (NNil, 0%Z)
+  | NNil => (NNil, match o_nullsz o with Some z => z | None => 0%Z end)
   | _ =>
       let t := render (o_esc o) n in
-      (NRaw (escape_tree (o_esc o) t), zlen (print (o_esc o) t))
+      (NRaw (escape_tree (o_esc o) t),
+       match n, o_nullsz o with
+       | NRaw TNull, Some z => z
+       | _, _ => zlen (print (o_esc o) t)
+       end)
   end.
 
 Definition root_node (r : root) : node :=
